@@ -229,7 +229,7 @@ class Enumerator:
                 if len(unknown) == 1:
                     self.assume(unknown[0], truth, st)
             return
-        if isinstance(test, ast.Name):
+        if isinstance(test, ast.Name) or (isinstance(test, ast.Attribute) and _is_chain(test)):
             if truth:
                 self._refine(test, ast.Constant(value=0), frozenset('<>'), st)
             else:
